@@ -15,7 +15,8 @@ Complete   == exhausted \/ (prof.passes = 2 /\ pass >= T.passes)
 C17Clauses ==
   LET z == Zone(T.cls, T.p) IN
   IF z = "valid"
-    THEN C("C17.valid_completes", T.ctor = 0 /\ T.hung = 0 /\ T.capped = 0 /\ Raised = {} /\ Complete)
+    THEN C("C17.valid_completes", T.ctor = 0 /\ T.hung = 0 /\ T.capped = 0 /\ Raised = {}
+                                    /\ (Complete \/ T.prefix = 1))     \* prefix = 1: only the first actions were requested
   ELSE IF z = "invalid"
     THEN C("C17.reject_early",
            /\ T.hung = 0
